@@ -25,7 +25,7 @@
     compartment sizes applied, ids renamed) is external -- its output is the input here, and
     [C17_import_correct_doc_partial] takes its meaning-preservation as an explicit hypothesis. *)
 From Coq Require Import String List QArith.
-From SbmlImp Require Import SbmlExpr SbmlImport SbmlRun SbmlSpec SbmlProofs SbmlWitness SbmlRefute SbmlRunProofs GenSbmlFacts.
+From SbmlImp Require Import SbmlExpr SbmlImport SbmlRun SbmlSpec SbmlProofs SbmlWitness SbmlRefute SbmlRunProofs SbmlPick GenSbmlFacts.
 Import ListNotations.
 Open Scope string_scope.
 
@@ -89,6 +89,14 @@ Proof.
            import_correct_doc doc transform A DocEqs DocInit docrhs H gen_facts C17_facts_pinned).
 Qed.
 Print Assumptions C17_import_correct_doc_partial.
+
+(** the generator never gives up, key clashes or not: the fresh-name search of _register_fn (key, key_1,
+    key_2, ...; fuel = len(functions) + 1 in the model) always finds a name, so a module is written for
+    EVERY symbolic representation -- the [None] outcome of the model's [generate] is unreachable *)
+Theorem C17_generator_total :
+  forall (s : symrepr), generate gen_facts s <> None.
+Proof. exact (generate_total gen_facts C17_facts_pinned). Qed.
+Print Assumptions C17_generator_total.
 
 (** FULL STATEMENT: the same for ids as they stand in the SBML file.  The renaming of ids that are not
     usable Python names (keywords, leading non-letters) happens inside pysbml and is NOT injective
